@@ -77,7 +77,9 @@ def _md5(path, blocksize=2 ** 20):
 
 
 def _check_md5(path, checksum):
-    return (_md5(path) == checksum) if checksum else None
+    # NOTE: hexadecimal digests are compared case-insensitively (`hexdigest()` is lower case,
+    # some tools publish upper-case checksums).
+    return (_md5(path) == checksum.lower()) if checksum else None
 
 
 def _check_md5_of_url(output_path, url):
